@@ -21,6 +21,8 @@ SIG_BLOCKED = 'clean-attic-path-not-a-directory'
 OUT_NAMES = 'outside: attic enabled and an invocation directory not named Y-M-D'
 
 DAYS = ['2024-01-01', '2024-01-02', '2023-12-31']
+# more shapes of the lock file (drawn with a smaller probability)
+LOCKS_B = ['empty', 'crlf', 'valid_long', 'cut', 'respelled_slash']
 STRAY_DIRS = ['src', 'a-b', '2024', 'rel', 'x', '2024-01-02x', '-n', 'a--b']
 STRAY_FILES = ['strayfile', 'README', '2024-01-02.7', 'robsd.log']
 CONTENT = [('report', 'F'), ('comment', 'F'), ('tags', 'F'), ('step.csv', 'F'), ('stat.csv', 'F'), ('src.diff.1', 'F'),
@@ -30,6 +32,77 @@ CONTENT = [('report', 'F'), ('comment', 'F'), ('tags', 'F'), ('step.csv', 'F'), 
            ('keepme/a/other', 'F'), ('empty', 'D'), ('.diff.', 'F'), ('a.diff.', 'F'), ('adiff.1', 'F'), ('reportx', 'F'),
            ('xreport', 'F'), ('step.csv.bak', 'F')]
 SPECIAL = [('tagslink', 'L'), ('reportdir', 'D')]
+
+
+# ---- boundary classes (sizes / shapes a fixed buffer, a narrowed integer, a growth step or an off-by-one trips over) ----
+# numbers of invocation directories around the growth steps of robsd-ls's vector (16, doubling) - also the number of
+# lines `tail -n +N` and the `while read` loop of purge see
+COUNTS = [15, 16, 17, 31, 32, 33, 63, 64, 65]
+COUNTS_BIG = [255, 256]          # the extracted oracle is cubic in the tree: drawn rarely, with nearly empty invocations
+PER_DAY = [99, 100, 101]         # 9/10/11 are in the ordinary stream; 999/1000 see corpus/C16/b16_per_day_1000.json
+# retention values next to the integer limits.  The configuration takes `keep` as a C int (2^31 is "integer too big", a
+# configuration error, C08); the count ARGUMENT is compared by the shell ([ -eq ], $((n + 1)), tail -n +N): bash and ksh
+# agree up to 2^63 - 2, beyond that $((n + 1)) wraps in bash and not in ksh93 - outside what bash can stand in for.
+BIG_KEEP = [2 ** 31 - 1, 2 ** 31, 2 ** 32 - 1, 2 ** 32, 2 ** 62]
+# PurgeDefs.effective_keep takes the retention as `nat` - unary in the extracted code, 2^31 of them do not fit in memory.
+# Every tree here has far fewer than MODEL_CAP invocations, and skipn k l = [] for every k >= length l: the model and
+# the oracle are given min(value, MODEL_CAP), the implementation the value itself.
+MODEL_CAP = 100000
+ROOT_LENS = [254, 255, 256, 1023, 1024, 1025, 3000]
+ATTIC_OLD = [1, 16, 17, 64, 65]
+# content of the invocations of a `bulk` description, by index
+PROFILES = [[],
+            [['report', 'F', 'r'], ['tmp', 'D', ''], ['tmp/x', 'F', 't'], ['001-a.log', 'F', 'l']],
+            [['report', 'F', 'old report']],
+            [['comment', 'F', 'c'], ['rel', 'D', ''], ['rel/index.txt', 'F', 'i'], ['rel/bsd.rd', 'F', 'b'], ['tmp', 'D', '']]]
+DEEP = 64
+
+
+def expand(case):
+    """entries of a case: the explicit ones plus the compact form `bulk` = [[prefix, lo, hi, profile], ...] standing for
+    the directories prefix + decimal(k), lo <= k <= hi, each with the content PROFILES[profile] (keeps corpus files
+    with hundreds of invocations small)"""
+    ents = [list(e) for e in case['entries']]
+    for prefix, lo, hi, prof in case.get('bulk') or []:
+        for k in range(lo, hi + 1):
+            n = '%s%d' % (prefix, k)
+            ents.append([n, 'D', ''])
+            ents += [[n + '/' + r, kind, c] for r, kind, c in PROFILES[prof]]
+    return ents
+
+
+def top_dirs(case):
+    """names of the directories the case puts into the root that robsd-ls lists"""
+    return [p for p, k, c in expand(case) if k == 'D' and '/' not in p and not p.startswith('.') and p != 'attic']
+
+
+def gen_inv_boundary(rng, name):
+    """content of an invocation at the boundaries of purge: tmp with 1 / many files (whitelisted names among them), tmp
+    inside tmp and inside another directory, 64 levels of nesting below tmp and below a directory that holds a
+    whitelisted file at the bottom, names of NAME_MAX bytes (one off, one on the whitelist, one a directory)"""
+    w = rng.choice(['tmp-1', 'tmp-many', 'tmp-nested', 'deep', 'name-255'])
+    ents = []
+    if w == 'tmp-1':
+        ents = [['tmp', 'D', ''], ['tmp/only', 'F', 'x']]
+    elif w == 'tmp-many':
+        ents = [['tmp', 'D', '']] + [['tmp/f%d' % i, 'F', 'x'] for i in range(rng.choice([15, 16, 17, 64, 65]))]
+        ents += [['tmp/report', 'F', 'x'], ['tmp/a.diff.1', 'F', 'x'], ['tmp/index.txt', 'F', 'x'], ['tmp/tags', 'F', 'x']]
+    elif w == 'tmp-nested':
+        ents = [['tmp', 'D', ''], ['tmp/tmp', 'D', ''], ['tmp/tmp/report', 'F', 'x'], ['tmp/tmp/tmp', 'D', ''],
+                ['rel', 'D', ''], ['rel/tmp', 'D', ''], ['rel/tmp/report', 'F', 'kept'], ['rel/tmp/junk', 'F', 'x'],
+                ['tmp.d', 'D', ''], ['tmp.d/stat.csv', 'F', 'kept'], ['tmpx', 'F', 'x']]
+    elif w == 'deep':
+        chain = ['obj'] + ['d'] * (DEEP - 1)
+        ents = [['/'.join(chain[:i]), 'D', ''] for i in range(1, DEEP + 1)]
+        ents += [['/'.join(chain) + '/report', 'F', 'deep and kept'], ['/'.join(chain) + '/junk', 'F', 'x'],
+                 ['/'.join(chain[:DEEP // 2]) + '/junk', 'F', 'x']]
+        tchain = ['tmp'] + ['t'] * DEEP
+        ents += [['/'.join(tchain[:i]), 'D', ''] for i in range(1, DEEP + 2)] + [['/'.join(tchain) + '/report', 'F', 'x']]
+    else:
+        ents = [['n' * iv_common.NAME_MAX, 'F', 'x'], ['x' * (iv_common.NAME_MAX - 7) + '.diff.1', 'F', 'kept'],
+                ['m' * iv_common.NAME_MAX, 'D', ''], ['m' * iv_common.NAME_MAX + '/comment', 'F', 'kept'],
+                ['m' * iv_common.NAME_MAX + '/' + 'j' * iv_common.NAME_MAX, 'F', 'x']]
+    return [[name + '/' + p, k, c] for p, k, c in ents]
 
 
 def gen_inv_content(rng, name):
@@ -50,10 +123,36 @@ def gen_inv_content(rng, name):
     return ents
 
 
+def gen_many(rng):
+    """a root with exactly n invocation directories, n around a growth step of robsd-ls's vector or a day with
+    99..101 invocations: consecutive numbers (every shorter name is a prefix of a longer one, name order is not age
+    order beyond nine a day), nearly empty so that the extracted oracle stays within seconds"""
+    r = rng.random()
+    if r < 0.7:
+        n, days = rng.choice(COUNTS), rng.choice([1, 2, 3])
+    elif r < 0.9:
+        n, days = rng.choice(PER_DAY), 1
+    else:
+        n, days = rng.choice(COUNTS_BIG), rng.choice([1, 3])
+    bulk = []
+    left = n
+    for i, d in enumerate(DAYS[:days]):
+        take = left if i == days - 1 else rng.randint(0, left)
+        if take:
+            bulk.append([d + '.', 1, take, 0 if n > 70 else rng.choice([0, 1, 1, 3])])
+        left -= take
+    return bulk, n
+
+
 def gen_case(rng):
     ents = []
     names = []
+    bulk = None
+    if rng.random() < 0.05:
+        bulk, _ = gen_many(rng)
     for d in DAYS:
+        if bulk:
+            break
         if rng.random() < 0.75:
             if rng.random() < 0.2:
                 names.append(d)
@@ -72,9 +171,21 @@ def gen_case(rng):
     for n in names + strays:
         ents.append([n, 'D', ''])
         ents += gen_inv_content(rng, n)
+        if rng.random() < 0.06:
+            ents += gen_inv_boundary(rng, n)
+    if bulk:
+        names = top_dirs({'entries': [], 'bulk': bulk})
     for n in STRAY_FILES:
         if rng.random() < 0.2 and n not in names:
             ents.append([n, 'F', 'stray ' + n])
+    if rng.random() < 0.08:
+        # entries next to the invocations that are not invocations: names of 1 and NAME_MAX bytes, a name byte-adjacent
+        # to a date, a dangling symlink, symlinks to invocation directories named like invocations (seed C16-3)
+        for e in [['f', 'F', 'one'], ['F' * iv_common.NAME_MAX, 'F', 'long'], ['2024-01-010', 'F', 'adjacent'],
+                  ['dangling', 'L', 'nowhere'], ['2024-01-02.99', 'L', names[0] if names else 'nowhere'],
+                  ['2024-01-03.1', 'L', names[-1] if names else '.'], ['.2024-01-02.1', 'D', ''], ['TMP', 'F', 'x']]:
+            if rng.random() < 0.5 and e[0] not in names:
+                ents.append(e)
     if rng.random() < 0.2:
         ents.append(['.hidden', 'D', ''])
         ents.append(['.hidden/report', 'F', 'h'])
@@ -99,6 +210,9 @@ def gen_case(rng):
     if attic in ('old', 'collide'):
         ents += [['attic/2023', 'D', ''], ['attic/2023/11', 'D', ''], ['attic/2023/11/30.1', 'D', ''],
                  ['attic/2023/11/30.1/report', 'F', 'old report'], ['attic/note', 'F', 'keep this']]
+        if rng.random() < 0.1:
+            # an attic that already holds 16/17/64/65 invocations
+            bulk = (bulk or []) + [['attic/2023/11/30.', 2, rng.choice(ATTIC_OLD), 2]]
     if attic == 'collide' and names:
         v = rng.choice(names)
         comps = v.replace('-', '/').split('/')
@@ -108,18 +222,47 @@ def gen_case(rng):
                 ents.append([p, 'D', ''])
         ents.append(['attic/' + v.replace('-', '/') + '/report', 'F', 'earlier one'])
     alld = names + strays
-    lock = rng.choice(['absent', 'absent', 'valid', 'valid', 'valid', 'stale', 'respelled', 'nonl', 'hidden'])
+    lock = rng.choice(['absent', 'absent', 'valid', 'valid', 'valid', 'stale', 'respelled', 'nonl', 'hidden']
+                      + (LOCKS_B if rng.random() < 0.3 else []))
     target = rng.choice(alld) if alld else None
-    if target is None and lock in ('valid', 'respelled'):
+    if target is not None and rng.random() < 0.3:
+        # a target whose path is a proper prefix of another invocation's path (DATE.1 next to DATE.10), when there is one
+        pre = [x for x in alld if any(y != x and y.startswith(x) for y in alld)]
+        target = rng.choice(pre) if pre else target
+    if target is None and lock in ('valid', 'respelled', 'crlf', 'valid_long', 'cut', 'respelled_slash'):
         lock = 'absent'
-    return {'entries': ents, 'lock': lock, 'target': target, 'keep': rng.choice([0, 0, 1, 1, 2, 3, 5]),
-            'count': rng.choice([None, None, 0, 1, 2, 3, 7]), 'attic': rng.random() < 0.7,
+    n = len(alld)
+    keep = rng.choice([0, 0, 1, 1, 2, 3, 5])
+    count = rng.choice([None, None, 0, 1, 2, 3, 7])
+    r = rng.random()
+    if r < 0.12 or (bulk and r < 0.7):
+        # the retention at the number of invocations and one to either side, through the argument or the configuration
+        v = max(0, n + rng.choice([-2, -1, -1, 0, 0, 1, 1, 2]))
+        if rng.random() < 0.6:
+            count = v
+        else:
+            keep, count = v, rng.choice([None, 0])
+    elif r < 0.17:
+        if rng.random() < 0.7:
+            count = rng.choice(BIG_KEEP)
+        else:
+            keep, count = 2 ** 31 - 1, rng.choice([None, 0])
+    case = {'entries': ents, 'lock': lock, 'target': target, 'keep': keep, 'count': count, 'attic': rng.random() < 0.7,
             'spell': rng.choice(['abs', 'abs', 'abs', 'slash']),
             'mode': rng.choice(['canvas', 'canvas', 'canvas'] + iv_common.MODES)}
+    if bulk:
+        case['bulk'] = bulk
+    if n > 40 and not (count or keep) >= n - 2:
+        # many victims with the attic enabled cost the extracted oracle (cubic in the tree) 5-40 s: a big root is cleaned
+        # down to a few only with the attic disabled (0.5-2 s)
+        case['attic'] = False
+    if rng.random() < 0.05:
+        case['rootlen'] = rng.choice(ROOT_LENS)
+    return case
 
 
 def materialize(case, root):
-    for p, k, c in case['entries']:
+    for p, k, c in expand(case):
         fp = os.path.join(root, p)
         os.makedirs(os.path.dirname(fp), exist_ok=True)
         if k == 'D':
@@ -144,6 +287,16 @@ def lock_content(case, rootstr):
         return '%s/%s' % (rootstr, t or 'x')
     if k == 'hidden':
         return '%s/.hidden\n' % rootstr
+    if k == 'empty':
+        return ''
+    if k == 'crlf':
+        return '%s/%s\r\n' % (rootstr, t)
+    if k == 'valid_long':                      # more than one 4096-byte block; the first line is the whole truth
+        return '%s/%s\n%s\n' % (rootstr, t, 'x' * 5000)
+    if k == 'cut':                             # the path of the target less its last byte: a PREFIX of it
+        return '%s/%s\n' % (rootstr, t[:-1])
+    if k == 'respelled_slash':
+        return '%s/%s/\n' % (rootstr, t)
     raise ValueError(k)
 
 
@@ -188,12 +341,20 @@ def run_one(ctx, impl, work, idx, case):
     d = os.path.join(work, 'c%d' % idx)
     os.makedirs(d)
     try:
-        root = os.path.join(d, 'root')
-        os.mkdir(root)
+        post = '/' if case['spell'] == 'slash' else ''
+        if case.get('rootlen'):
+            # robsddir spelled with exactly `rootlen` bytes: padding directories of up to NAME_MAX bytes in between
+            need = case['rootlen'] - len(d) - 1 - len(post)
+            if need < 1:
+                raise common.BuildFailure('C16 case: rootlen %r is shorter than the scratch directory allows' % case['rootlen'])
+            root = os.path.join(d, '/'.join(iv_common.root_components(need)))
+        else:
+            root = os.path.join(d, 'root')
+        os.makedirs(root)
         tmp = os.path.join(d, 'tmp')
         os.mkdir(tmp)
         materialize(case, root)
-        rootstr = root + ('/' if case['spell'] == 'slash' else '')
+        rootstr = root + post
         lc = lock_content(case, rootstr)
         if lc is not None:
             open(os.path.join(root, '.running'), 'w').write(lc)
@@ -332,9 +493,16 @@ def replayable(c):
 
 def running_name(case):
     """ground truth for the oracle: the invocation the lock file stands for, if it exists"""
-    if case['lock'] in ('valid', 'respelled') and case['target']:
+    if case['lock'] in ('valid', 'respelled', 'valid_long', 'respelled_slash') and case['target']:
         return case['target']
+    if case['lock'] == 'cut' and case['target'] and case['target'][:-1] in top_dirs(case):
+        return case['target'][:-1]          # the cut path is the path of another invocation (DATE.10 -> DATE.1)
     return None
+
+
+def mcap(v):
+    """a retention value as the model and the oracle are given it (see MODEL_CAP)"""
+    return str(min(v, MODEL_CAP))
 
 
 def evaluate(ctx, cases, res, impl=None):
@@ -357,8 +525,8 @@ def evaluate(ctx, cases, res, impl=None):
     qs = []
     for c, o in zip(cases, obs):
         lock = '!' if o['lock'] is None else hexs(o['lock'])
-        cnt = '!' if c['count'] is None else str(c['count'])
-        head = [hexs(o['rootstr']), str(c['keep']), cnt, '1' if c['attic'] else '0', lock]
+        cnt = '!' if c['count'] is None else mcap(c['count'])
+        head = [hexs(o['rootstr']), mcap(c['keep']), cnt, '1' if c['attic'] else '0', lock]
         qs.append(' '.join(['clean'] + head + snap_tokens(strip_lock(o['before']))))
         ages = ages_of(o)
         qs.append(' '.join(['cleanok'] + head + [hexs((running_name(c) or '').encode()) if running_name(c) else '!',
@@ -372,13 +540,13 @@ def evaluate(ctx, cases, res, impl=None):
     qs2 = []
     idx2 = []
     for i, (c, o) in enumerate(zip(cases, obs)):
-        if c['lock'] in ('absent', 'nonl', 'valid') and not outside_names(c, o['before']) and not blocked_possible(c, o['before']):
+        if c['lock'] in ('absent', 'nonl', 'valid', 'empty', 'valid_long') and not outside_names(c, o['before']) and not blocked_possible(c, o['before']):
             # the guards of C16_oracle_accepts_model: consistent lock, names Y-M-D, every victim archived
             mt = ans[2 * i].split()
             lock = '!' if o['lock'] is None else hexs(o['lock'])
-            cnt = '!' if c['count'] is None else str(c['count'])
+            cnt = '!' if c['count'] is None else mcap(c['count'])
             bt = snap_tokens(strip_lock(o['before']))
-            qs2.append(' '.join(['cleanok', hexs(o['rootstr']), str(c['keep']), cnt, '1' if c['attic'] else '0', lock,
+            qs2.append(' '.join(['cleanok', hexs(o['rootstr']), mcap(c['keep']), cnt, '1' if c['attic'] else '0', lock,
                                  hexs(running_name(c).encode()) if running_name(c) else '!', mt[0], '!', str(len(bt))]
                                 + bt + mt[2:]))
             idx2.append(i)
@@ -394,7 +562,9 @@ def evaluate(ctx, cases, res, impl=None):
         eff = c['count'] if c['count'] else c['keep']
         ninv = sum(1 for p, v in o['before'].items() if b'/' not in p and v[0] == 'd' and not p.startswith(b'.') and p != b'attic')
         nrem = sum(1 for p, v in o['before'].items() if b'/' not in p and v[0] == 'd' and p not in o['after'])
-        res.count('keep=%d' % eff)
+        res.count('keep=%s' % (eff if eff < 20 else '20+' if eff < 2 ** 31 - 1 else '2^31-1 and more'))
+        for cl in classes_of(c, o, eff, ninv):
+            res.count('class: ' + cl)
         res.count('lock=' + c['lock'])
         res.count('lane=' + ('trace' if 'origin' in c else 'root'))
         res.count('attic=' + ('yes' if c['attic'] else 'no'))
@@ -430,6 +600,65 @@ def evaluate(ctx, cases, res, impl=None):
             res.oracle_failures.append({'case': replayable(c), 'signature': sig, 'what': ('cleaning of run %d: ' % c['step'] if 'step' in c else '') + what,
                                         'impl': o['out'][-300:].decode('latin1'), 'oracle': ok})
     return res
+
+
+def classes_of(c, o, eff, ninv):
+    """the boundary classes a case belongs to (printed into the input distribution as `class: ...`)"""
+    out = []
+    before = o['before']
+    inv = invocations_of(before)
+    if ninv in COUNTS + COUNTS_BIG:
+        out.append('invocations=%d' % ninv)
+    days = {}
+    for n in inv:
+        m = DATED.fullmatch(n)
+        if m:
+            days[m.group(1)] = days.get(m.group(1), 0) + 1
+    for k in days.values():
+        if k in (9, 10, 11, 99, 100, 101, 999, 1000):
+            out.append('per-day=%d' % k)
+    if eff > 0:
+        for dlt, nm in ((-1, 'n-1'), (0, 'n'), (1, 'n+1')):
+            if eff == ninv + dlt:
+                out.append('retention=' + nm)
+        if eff == 1:
+            out.append('retention=1')
+        for v in BIG_KEEP:
+            if eff == v:
+                out.append('retention=%d (%s)' % (v, 'configuration' if not c['count'] else 'argument'))
+    sa = sorted(inv)
+    if any(y.startswith(x) for x, y in zip(sa, sa[1:])):
+        out.append('invocation names that are prefixes of each other')
+    line = lock_first_line(o)
+    if line is not None and line.startswith(o['rootstr'] + b'/') and \
+            any((o['rootstr'] + b'/' + n).startswith(line) and o['rootstr'] + b'/' + n != line for n in inv):
+        out.append('lock line is a proper prefix of an invocation path')
+    if c['lock'] in LOCKS_B:
+        out.append('lock-shape=' + c['lock'])
+    if o['lock'] is not None and len(o['lock']) > iv_common.PATH_MAX:
+        out.append('lock file > 4096 bytes')
+    if len(o['rootstr']) in ROOT_LENS:
+        out.append('root-len=%d' % len(o['rootstr']))
+    old = sum(1 for p, v in before.items() if p.count(b'/') == 3 and p.startswith(b'attic/') and v[0] == 'd')
+    if old in (1, 16, 17, 64, 65):
+        out.append('attic already holds %d' % old)
+    top = {p: v for p, v in before.items() if b'/' not in p}
+    if any(v[0] == 'l' and p not in (b'latest',) for p, v in top.items()):
+        out.append('symlink in the root' + (' named like an invocation' if any(v[0] == 'l' and DATED.fullmatch(p) for p, v in top.items()) else ''))
+    if any(len(p) in (1, iv_common.NAME_MAX) for p in top):
+        out.append('root entry name of 1 / NAME_MAX bytes')
+    depth = max([p.count(b'/') for p in before] + [0])
+    if depth >= DEEP:
+        out.append('nesting >= %d levels' % DEEP)
+    if any(len(x) == iv_common.NAME_MAX for p in before for x in p.split(b'/')[1:]):
+        out.append('name of NAME_MAX bytes inside an invocation')
+    for n in inv:
+        k = sum(1 for p in before if p.startswith(n + b'/tmp/') and p.count(b'/') == 2)
+        if n + b'/tmp' in before and k in (0, 1) or k >= 15:
+            out.append('tmp with %s entries' % (k if k < 15 else '15+'))
+        if n + b'/tmp/tmp' in before or n + b'/rel/tmp' in before:
+            out.append('tmp nested in tmp / in another directory')
+    return sorted(set(out))
 
 
 def blocked_possible(c, before):
@@ -495,7 +724,7 @@ def classify(c, o, eff):
                 break
     # (2) the lock's first line denotes the running invocation but is spelled differently from the path
     #     robsd-ls prints: -B omits nothing, purge skips the +1: the eff-1 first names are left
-    if c['lock'] == 'respelled' and runb is not None and line is not None and line not in printed \
+    if c['lock'] in ('respelled', 'respelled_slash') and runb is not None and line is not None and line not in printed \
             and os.path.normpath(line.decode('latin1')) == os.path.normpath((o['rootstr'] + b'/' + runb).decode('latin1')) \
             and left == inv[:eff - 1]:
         return SIG_RUNNING, ('the lock file names the running invocation %s as %r, robsd-ls prints %r: -B omitted nothing and '
@@ -503,7 +732,7 @@ def classify(c, o, eff):
                              % (run, line.decode('latin1'), (o['rootstr'] + b'/' + runb).decode('latin1'), len(left), len(inv),
                                 '' if runb in left else ', the running one archived'))
     # (3) the lock names no listed path at all (stale, hidden): exactly eff-1 are left, the first ones by name
-    if c['lock'] in ('stale', 'hidden') and line is not None and line not in printed and run is None \
+    if c['lock'] in ('stale', 'hidden', 'crlf', 'cut') and line is not None and line not in printed and run is None \
             and len(inv) >= eff and left == inv[:eff - 1]:
         return SIG_STALE, ('retention %d but %d of %d invocations left: the lock file names %r, which is not an invocation '
                            'of the root, purge then skips the +1 compensation'
@@ -560,12 +789,23 @@ def run(ctx, n=None):
                 'files, empty directories, symlinks), attic absent/empty/with earlier content/with the destination already '
                 'there / a plain file where an attic directory has to go, busy days (DATE.7 ... DATE.13), lock '
                 'absent/valid/stale/spelled differently/without newline/naming a hidden directory, keep 0-5 x count '
-                'argument none/0/1-7, attic on/off, robsddir with and without trailing slash; non-trivial = retention > 0, at '
+                'argument none/0/1-7, attic on/off, robsddir with and without trailing slash; boundary classes (counted as '
+                '`class: ...`): 15-17/31-33/63-65/255/256 invocations, 99-101 a day, retention n-1/n/n+1 and 2^31-1 ... 2^62, '
+                'robsddir of 254-256/1023-1025/3000 bytes, lock file empty/CRLF/> 4096 bytes/cut to a prefix/trailing slash, attic '
+                'holding 16/17/64/65 invocations, tmp with 1/15-65 entries/nested, 64 levels of nesting, names of 255 bytes, '
+                'symlinks named like invocations; non-trivial = retention > 0, at '
                 'least one invocation removed and at least one left; distinct by content hash')
     n = n or ctx.budget(150, 3000)
     cases = load_corpus() + [gen_case(ctx.rng) for _ in range(n)] + [gen_trace(ctx.rng) for _ in range(ctx.budget(3, 40))]
+    if ctx.budget(0, 1):
+        # a day with 1000 invocations (four-digit suffixes): 35 s in the extracted oracle - thorough tier only; the quick
+        # tier stops at 101 a day (corpus/C16/b16_per_day_101.json) and 256 invocations
+        cases.append({'entries': [], 'bulk': [['2024-01-02.', 1, 1000, 0]], 'lock': 'valid', 'target': '2024-01-02.1000', 'keep': 0,
+                      'count': 998, 'attic': True, 'spell': 'abs', 'mode': 'canvas'})
     res.samples = cases[:2]
-    res.assumptions = ['trees of up to ~300 entries in the correspondence (the theorems have no bound)']
+    res.assumptions = ['trees of up to ~1300 entries and 256 invocations (thorough tier: 1000) in the correspondence (the theorems have '
+                       'no bound); retention values above %d reach the model as %d (unary numbers in the extracted code)'
+                       % (MODEL_CAP, MODEL_CAP)]
     impl = ctx.build_impl()
     chunk = 500
     for i in range(0, len(cases), chunk):
